@@ -613,7 +613,37 @@ func (e *Engine) lookupIntrinsic(fn *ssa.Function) intrinsicFn {
 			}
 		}
 	case "(*time.Timer).Stop", "(*time.Timer).Reset":
-		return func(x *Exec, _ *ssa.Function, a []Value) Value { return mkBool(false) }
+		// on the prelude's timers: Stop leaves nothing to receive (Go 1.23 semantics), Reset makes it fire again —
+		// at once, the adversarial schedule; both report "was not active" (it had fired already)
+		reset := strings.HasSuffix(name, "Reset")
+		return func(x *Exec, f *ssa.Function, a []Value) Value {
+			p, _ := a[0].(*Pointer)
+			if p == nil {
+				x.abort("PANIC", "nil *time.Timer")
+			}
+			st := f.Signature.Recv().Type().(*types.Pointer).Elem().Underlying().(*types.Struct)
+			for i := 0; i < st.NumFields(); i++ {
+				if st.Field(i).Name() != "C" {
+					continue
+				}
+				if ch, _ := x.load(sub(p, i)).(*ChanV); ch != nil {
+					ch.Buf = nil
+					if reset {
+						// bounded: a loop driven by a timer that always fires at once would never end
+						if x.timerResets == nil {
+							x.timerResets = map[string]int{}
+						}
+						k := ptrKey(p)
+						x.timerResets[k]++
+						if x.timerResets[k] > 4 {
+							x.abort("UNSUPPORTED", "a default-model timer was re-armed more than 4 times (give the harness its own timer stub)")
+						}
+						ch.Buf = []Value{x.zero(st.Field(i).Type().Underlying().(*types.Chan).Elem())}
+					}
+				}
+			}
+			return mkBool(false)
+		}
 	}
 	return nil
 }
